@@ -38,8 +38,8 @@ var c16KindNames = []string{"healthy", "offline", "lagging", "stopped", "dead"}
 
 type c16ACase struct {
 	K       int      `json:"cascade_hosts"`
-	SF      []string `json:"stream_from"` // for c1..cK
-	Health  []int    `json:"health"`      // for a, c2..cK
+	SF      []string `json:"stream_from"`    // for c1..cK
+	Health  []int    `json:"health"`         // for a, c2..cK
 	Current string   `json:"current_source"` // what c1 streams from now ("" = not replicating)
 }
 
@@ -171,7 +171,7 @@ type c16BCase struct {
 	Relation string `json:"replica_vs_candidate"` // behind equal ahead diverged
 	Running  bool   `json:"replica_running"`
 	H2       int    `json:"configured_source_condition"` // gOffline gLagging gStopped gDead
-	Reconf   string `json:"stream_from_changed_to"`       // "" none, h1, c2
+	Reconf   string `json:"stream_from_changed_to"`      // "" none, h1, c2
 	Progress bool   `json:"candidate_catches_up_later"`
 }
 
